@@ -53,6 +53,22 @@ def lexer_key_rule(ctx: Ctx, rid: str) -> None:
     built = [a for a in ast.walk(gl.node) if isinstance(a, ast.Assign) and ast.unparse(a.value) == "Lexer(environment)"]
     stored_ok = len(stores) == 1 and len(built) == 1 and (stores[0] is built[0] or ast.unparse(stores[0].value) in {ast.unparse(t_) for t_ in built[0].targets})
     ctx.check("_lexer_cache.get(key)" in s and stored_ok, "key:use", "lexer:get_lexer", "lookup/store use the key", "lookup and store must use the same key", gl.loc())
+    # the lexer an environment gets is a function of its *current* options: every value
+    # get_lexer returns was looked up or created under `key` in this call; nothing is
+    # remembered on the environment itself (overlay() copies the environment's __dict__ and
+    # then changes options: a lexer remembered there would be the parent's)
+    for r in astq.returns(gl.node):
+        v = r.value
+        srcs: list[str] = []
+        if isinstance(v, ast.Name):
+            srcs = [ast.unparse(a.value) for a in ast.walk(gl.node) if isinstance(a, ast.Assign) and any(isinstance(t_, ast.Name) and t_.id == v.id for t_ in a.targets)]
+        elif v is not None:
+            srcs = [ast.unparse(v)]
+        ok_r = bool(srcs) and all(x in ("_lexer_cache.get(key)", "Lexer(environment)", "_lexer_cache[key]") for x in srcs)
+        ctx.check(ok_r, f"key:returns:{ast.unparse(v)[:30] if v is not None else None}", "lexer:get_lexer", f"returns a lexer not obtained under the key ({srcs})",
+                  f"get_lexer returns `{ast.unparse(v) if v is not None else None}` (from {srcs}): the lexer must be the one cached or built under the key of the environment's current options - a lexer remembered elsewhere (on the environment) survives `overlay(...)` with changed delimiters, and the overlay tokenizes with its parent's syntax", gl.loc(r))
+    env_stores = [n_ for n_ in ast.walk(gl.node) if isinstance(n_, ast.Attribute) and isinstance(n_.ctx, (ast.Store, ast.Del)) and ast.unparse(n_.value) == "environment"] + [c for c in astq.calls(gl.node) if astq.callee(c) in ("setattr", "object.__setattr__", "environment.__dict__.update", "environment.extend")]
+    ctx.check(not env_stores, "key:no-memo-on-environment", "lexer:get_lexer", "stores on the environment", "get_lexer must not store anything on the environment (overlay() copies __dict__)", gl.loc(env_stores[0]) if env_stores else gl.loc())
     # options the tokenizer uses at run time must be captured at construction
     lm = LexModel(repo, configs()[0])
     ti = repo.func("lexer:Lexer.tokeniter")
